@@ -239,6 +239,9 @@ fn all_nonzero_distinct<F: Field>(v: &[F]) -> Result<(), String> {
         if x.is_zero() {
             return Err(format!("blinding scalar {} is zero", i));
         }
+        if x.is_one() || (-*x).is_one() {
+            return Err(format!("blinding scalar {} is the constant +-1", i));
+        }
         for (j, y) in v.iter().enumerate().skip(i + 1) {
             if x == y {
                 return Err(format!("blinding scalars {} and {} coincide", i, j));
@@ -352,6 +355,20 @@ pub fn scheme<S: HideOps>(rec: &mut Rec) {
                 if h.is_some() {
                     if !differs || ser(&s0[0]) == ser(&s1[0]) {
                         viol(rec, S::NAME, "commit/other-seed-same", &id, "independent RNG seeds gave the same hiding commitment or state".into());
+                    }
+                    // every single blinding scalar is fresh: none is shared between two independent
+                    // seeds, none between the blinded parts of one commitment
+                    if let (Ok(pa), Ok(pb)) = (S::structure(&keys, &lpoly, &c0[0], &s0[0]), S::structure(&keys, &lpoly, &c1[0], &s1[0])) {
+                        for (pi, (x, y)) in pa.iter().zip(pb.iter()).enumerate() {
+                            if let Some(k) = (0..x.len().min(y.len())).find(|k| x[*k] == y[*k]) {
+                                viol(rec, S::NAME, "commit/blinding-scalar-not-fresh", &id, format!("blinded part {}: scalar {} is the same under two independent RNG seeds", pi, k));
+                            }
+                        }
+                        if pa.len() >= 2 {
+                            if let Some(k) = (0..pa[0].len().min(pa[1].len())).find(|k| pa[0][*k] == pa[1][*k]) {
+                                viol(rec, S::NAME, "commit/blinding-scalar-not-fresh", &id, format!("scalar {} is shared by the plain and the shifted blinding of one commitment", k));
+                            }
+                        }
                     }
                     if let (Ok(pa), Ok(pb)) = (&p0, open_with(&s1[0], &c1[0], 0)) {
                         let (va, vb): (Vec<Pf<S>>, Vec<Pf<S>>) = (vec![pa.clone()], vec![pb.clone()]);
